@@ -101,6 +101,15 @@ static size_t rtCurrentDevice(void *userdata, size_t track)
 static void rtSongBegin(void *userdata)
 {
     OPNMIDIplay *context = reinterpret_cast<OPNMIDIplay *>(userdata);
+    // A song begins with the programs and banks of a freshly loaded one
+    for(size_t c = 0, n = context->m_midiChannels.size(); c < n; ++c)
+    {
+        OPNMIDIplay::MIDIchannel &ch = context->m_midiChannels[c];
+        ch.patch = 0;
+        ch.bank_msb = 0;
+        ch.bank_lsb = 0;
+        ch.is_xg_percussion = false;
+    }
     return context->realTime_ResetState();
 }
 /* NonStandard calls End */
